@@ -76,7 +76,8 @@ theorem accessor_set (sd : StructDef) (idx : Nat) (f : Field) (gs : List GVal)
   ThriftVerif.Schema.accessor_set sd idx f gs hf hreq hnil
 
 theorem default_ctor_fields (sd : StructDef) (h : sd.fields.any (·.dflt.isSome) = true) :
-    defaultCtor sd = some (.struct (sd.fields.map fun f => f.dflt.getD .nil)) :=
+    defaultCtor sd = some (.struct (sd.fields.map fun f =>
+      f.dflt.getD (if f.req && f.ty.isPrim then zeroOf f.ty else .nil))) :=
   ThriftVerif.Schema.default_ctor_fields sd h
 
 /-- Non-vacuity: a struct with a required i32, a defaulted optional, an absent optional, a
